@@ -69,6 +69,28 @@ fn expr(v: &Value) -> Expression {
         "bound" => Expression::Bound(Variable::new_unchecked(v["name"].as_str().unwrap())),
         "isiri" => Expression::FunctionCall(spargebra::algebra::Function::IsIri, vec![expr(&v["a"])]),
         "eq" => Expression::Equal(b("a"), b("b")),
+        "ne" => Expression::Not(Box::new(Expression::Equal(b("a"), b("b")))),
+        "gt" => Expression::Greater(b("a"), b("b")),
+        "le" => Expression::LessOrEqual(b("a"), b("b")),
+        "ge" => Expression::GreaterOrEqual(b("a"), b("b")),
+        "add" => Expression::Add(b("a"), b("b")),
+        "sub" => Expression::Subtract(b("a"), b("b")),
+        "mul" => Expression::Multiply(b("a"), b("b")),
+        "sameterm" => Expression::SameTerm(b("a"), b("b")),
+        "if" => Expression::If(b("c"), b("a"), b("b")),
+        "coalesce" => Expression::Coalesce(v["args"].as_array().unwrap().iter().map(expr).collect()),
+        "concat" => Expression::FunctionCall(spargebra::algebra::Function::Concat, v["args"].as_array().unwrap().iter().map(expr).collect()),
+        "substr" => Expression::FunctionCall(spargebra::algebra::Function::SubStr, if v.get("c").is_some() { vec![expr(&v["a"]), expr(&v["b"]), expr(&v["c"])] } else { vec![expr(&v["a"]), expr(&v["b"])] }),
+        f @ ("isblank" | "isliteral" | "isnumeric" | "str" | "lang" | "datatype" | "strlen" | "ucase" | "lcase") => {
+            use spargebra::algebra::Function as F;
+            let fun = match f { "isblank" => F::IsBlank, "isliteral" => F::IsLiteral, "isnumeric" => F::IsNumeric, "str" => F::Str, "lang" => F::Lang, "datatype" => F::Datatype, "strlen" => F::StrLen, "ucase" => F::UCase, _ => F::LCase };
+            Expression::FunctionCall(fun, vec![expr(&v["a"])])
+        }
+        f @ ("strstarts" | "strends" | "contains") => {
+            use spargebra::algebra::Function as F;
+            let fun = match f { "strstarts" => F::StrStarts, "strends" => F::StrEnds, _ => F::Contains };
+            Expression::FunctionCall(fun, vec![expr(&v["a"]), expr(&v["b"])])
+        }
         "lt" => Expression::Less(b("a"), b("b")),
         "not" => Expression::Not(b("a")),
         "and" => Expression::And(b("a"), b("b")),
@@ -116,6 +138,8 @@ fn data_terms() -> (Vec<ST>, Vec<ST>, Vec<ST>) {
         lit_dt("1", &format!("{XSD}integer")), lit_dt("2", &format!("{XSD}integer")), lit_dt("01", &format!("{XSD}integer")), lit_dt("10", &format!("{XSD}integer")),
         lit_dt("a", &format!("{XSD}string")), lit_dt("b", &format!("{XSD}string")), lit_dt("", &format!("{XSD}string")),
         lit_dt("true", &format!("{XSD}boolean")), lit_dt("false", &format!("{XSD}boolean")), lit_dt("x", "http://ex/dt"),
+        lit_dt("-3", &format!("{XSD}integer")), lit_dt("0", &format!("{XSD}integer")), lit_dt("a\u{e9}\u{1F600}b", &format!("{XSD}string")), lit_dt("Ab", &format!("{XSD}string")),
+        lit_lang("a", "en"), lit_lang("\u{e9}a", "fr"), lit_lang("ab", "en"),
     ];
     (iris, preds, lits)
 }
@@ -170,14 +194,28 @@ fn rand_expr(rng: &mut Rng, depth: usize) -> Value {
     if depth >= 2 {
         return leaf(rng);
     }
-    match rng.below(10) {
+    let sub = |rng: &mut Rng| rand_expr(rng, depth + 1);
+    match rng.below(24) {
         0 => json!({"op":"bound","name": *rng.pick(&VARS)}),
-        1 => json!({"op":"isiri","a": rand_expr(rng, depth + 1)}),
-        2 | 3 => json!({"op":"eq","a": rand_expr(rng, depth + 1),"b": rand_expr(rng, depth + 1)}),
-        4 => json!({"op":"lt","a": rand_expr(rng, depth + 1),"b": rand_expr(rng, depth + 1)}),
-        5 => json!({"op":"not","a": rand_expr(rng, depth + 1)}),
-        6 => json!({"op":"and","a": rand_expr(rng, depth + 1),"b": rand_expr(rng, depth + 1)}),
-        7 => json!({"op":"or","a": rand_expr(rng, depth + 1),"b": rand_expr(rng, depth + 1)}),
+        1 => json!({"op":"isiri","a": sub(rng)}),
+        2 | 3 => json!({"op":"eq","a": sub(rng),"b": sub(rng)}),
+        4 => json!({"op":"lt","a": sub(rng),"b": sub(rng)}),
+        5 => json!({"op":"not","a": sub(rng)}),
+        6 => json!({"op":"and","a": sub(rng),"b": sub(rng)}),
+        7 => json!({"op":"or","a": sub(rng),"b": sub(rng)}),
+        8 => json!({"op": *rng.pick(&["ne", "gt", "le", "ge", "sameterm"]),"a": sub(rng),"b": sub(rng)}),
+        9 => json!({"op": *rng.pick(&["add", "sub", "mul"]),"a": sub(rng),"b": sub(rng)}),
+        10 => json!({"op":"if","c": sub(rng),"a": sub(rng),"b": sub(rng)}),
+        11 => json!({"op":"coalesce","args": (0..1 + rng.below(3)).map(|_| sub(rng)).collect::<Vec<_>>()}),
+        12 | 13 => json!({"op": *rng.pick(&["isblank", "isliteral", "isnumeric", "str", "lang", "datatype"]),"a": sub(rng)}),
+        14 | 15 => json!({"op": *rng.pick(&["strlen", "ucase", "lcase"]),"a": sub(rng)}),
+        16 | 17 => json!({"op": *rng.pick(&["strstarts", "strends", "contains"]),"a": sub(rng),"b": sub(rng)}),
+        18 | 19 => {
+            // start / length: small integers around the ends of the string, or any expression
+            let int = |rng: &mut Rng| if rng.chance(3, 4) { json!({"op":"const","term": term_json(&lit_dt(*rng.pick(&["0", "1", "2", "3", "-3", "10"]), &format!("{XSD}integer")))}) } else { rand_expr(rng, depth + 1) };
+            if rng.chance(1, 2) { json!({"op":"substr","a": sub(rng),"b": int(rng)}) } else { json!({"op":"substr","a": sub(rng),"b": int(rng),"c": int(rng)}) }
+        }
+        20 => json!({"op":"concat","args": (0..rng.below(4)).map(|_| sub(rng)).collect::<Vec<_>>()}),
         _ => leaf(rng),
     }
 }
@@ -278,6 +316,51 @@ pub fn main(args: &[String]) {
             match ev {
                 Ok(e) => tr.emit(e),
                 Err(m) => tr.emit(json!({"ev":"Panic","msg":m,"d":d.iter().map(q_json).collect::<Vec<_>>(),"p":p})),
+            }
+        }
+        // every function / operator of the expression fragment on every tuple of constants of the universe:
+        // SELECT ?r { BIND(f(c1, c2) AS ?r) } over the empty group (one solution), every `stride`-th application
+        let stride = arg_u64(args, "--expr-stride", 4) as usize;
+        let (iris, _, lits) = data_terms();
+        let mut consts: Vec<Value> = vec![term_json(&iris[0])];
+        consts.extend(lits.iter().map(term_json));
+        let c = |t: &Value| json!({"op":"const","term":t});
+        let mut apps: Vec<Value> = vec![];
+        for a in &consts {
+            for op in ["isiri", "isblank", "isliteral", "isnumeric", "str", "lang", "datatype", "strlen", "ucase", "lcase", "not"] {
+                apps.push(json!({"op":op,"a":c(a)}));
+            }
+            apps.push(json!({"op":"if","c":c(a),"a":c(&consts[1]),"b":c(&consts[5])}));
+            apps.push(json!({"op":"coalesce","args":[{"op":"lang","a":c(a)}, c(&consts[2])]}));
+            for b in &consts {
+                for op in ["eq", "ne", "lt", "gt", "le", "ge", "sameterm", "add", "sub", "mul", "and", "or", "strstarts", "strends", "contains"] {
+                    apps.push(json!({"op":op,"a":c(a),"b":c(b)}));
+                }
+                apps.push(json!({"op":"concat","args":[c(a), c(b)]}));
+            }
+        }
+        let int = |s: &str| json!({"op":"const","term": term_json(&lit_dt(s, &format!("{XSD}integer")))});
+        for a in consts.iter().filter(|t| t["k"] == "lit") {
+            for st in ["-3", "0", "1", "2", "3", "4", "10"] {
+                apps.push(json!({"op":"substr","a":c(a),"b":int(st)}));
+                for ln in ["-3", "0", "1", "2", "10"] {
+                    apps.push(json!({"op":"substr","a":c(a),"b":int(st),"c":int(ln)}));
+                }
+            }
+        }
+        for (i, e) in apps.into_iter().enumerate() {
+            if (i + seed as usize) % stride != 0 {
+                continue;
+            }
+            let p = json!({"op":"extend","v":"r","e":e,"inner":{"op":"bgp","tps":[]}});
+            let d: Vec<Q> = vec![];
+            let ev = guarded(|| {
+                let (res, cont) = run_on(0, &d, Query::Select { dataset: None, pattern: pattern(&p), base_iri: None });
+                json!({"ev":"Query","ask":false,"container":cont,"d":[],"p":p,"res":res})
+            });
+            match ev {
+                Ok(e) => tr.emit(e),
+                Err(m) => tr.emit(json!({"ev":"Panic","msg":m,"d":[],"p":p})),
             }
         }
         // unsupported operators and dataset clauses: explicit NotImplemented, never a partial answer
